@@ -15,8 +15,11 @@
    specification does not declare, any payload, anywhere in the document), read by the configurations that tolerate
    unknown ids; the writer's two ways of emitting a raw tag; write -> read for known-size documents with raw tags.
    Writer half and write -> read for the second class (very last part, Proofs/WriteEncG.v): declared paths with global
-   placeholders, each matching the masters the element is written in; tag by tag, as Full items, or any mix. *)
-From Ebml Require Import Base Tools Spec Writer Reader Pure Encode Proofs.Tactics Proofs.ReaderIO Proofs.Refine Proofs.PureProofs Proofs.RollUp Proofs.RoundTrip Proofs.RoundTripKnown Proofs.RoundTripRaw Proofs.WriteEnc Proofs.WriteFull Proofs.WriteMixed Proofs.WriteEncG.
+   placeholders, each matching the masters the element is written in; tag by tag, as Full items, or any mix.
+   Every composed write -> read theorem has a sibling [..._strong] whose conclusion is the outcome list itself
+   ([p_run ... = items_forest 0 f ++ [ONone]]: exactly the items, with offsets, then the clean end - no error), not its image
+   under [out_tag], which cannot tell ONone from an error or budget outcome (C01_out_tag_blind). *)
+From Ebml Require Import Base Tools Spec Writer Reader Pure Encode Proofs.Tactics Proofs.ReaderIO Proofs.Refine Proofs.PureProofs Proofs.RollUp Proofs.RoundTrip Proofs.RoundTripKnown Proofs.RoundTripRaw Proofs.WriteEnc Proofs.WriteFull Proofs.WriteMixed Proofs.WriteEncG Proofs.BufferSimErr Proofs.AuditRoundTrip.
 
 (* every conforming document — any nesting depth, any payloads, any size widths, any subset of masters of unknown size — is
    read back as exactly its items (masters as Start/End pairs, offsets of the first byte of each element), then None *)
@@ -86,6 +89,30 @@ Theorem C01_roundtrip_partial : forall c d f, strict c -> c_buffered c = [] -> c
   map out_tag (p_run c (snd (run_writer (c_sp c) (wops_forest d f) [])) [RAll]) = map op_tag (wops_forest d f) ++ [None].
 Proof. exact write_read_roundtrip. Qed.
 
+(* [out_tag] maps every outcome that is not an item - the clean end ONone, but also OErr, OLimit, OFuel, OPanic - to None, so the
+   conclusion above does not by itself exclude a run that ends in an error.  The statement on the outcome list itself: every
+   write call succeeds; the strict reader (nothing buffered, Ends emitted at the end of input), run to exhaustion on the bytes
+   the writer delivered, yields EXACTLY the items of the document - each tag with the offset of its first byte - followed by the
+   clean end ONone (no error, no budget outcome); and the tags of these items are the tags of the write calls, in order.
+   Hypotheses as for C01_roundtrip_partial: [strict c], [c_buffered c = []], [c_emit_eof c = true], [Forall (wconf (c_sp c) d []) f],
+   [Forall (rconf c) f]. *)
+Theorem C01_roundtrip_partial_strong : forall c d f, strict c -> c_buffered c = [] -> c_emit_eof c = true ->
+  Forall (wconf (c_sp c) d []) f -> Forall (rconf c) f ->
+  Forall (fun r => fst r = WOk) (fst (run_writer (c_sp c) (wops_forest d f) [])) /\
+  p_run c (snd (run_writer (c_sp c) (wops_forest d f) [])) [RAll] = items_forest 0 f ++ [ONone] /\
+  map out_tag (items_forest 0 f) = map op_tag (wops_forest d f).
+Proof. exact write_read_roundtrip_strong. Qed.
+
+(* what [out_tag] cannot tell apart: an item followed by an error, by the item limit, or by the clean end *)
+Theorem C01_out_tag_blind : forall t off e,
+  map out_tag [OItem t off; OErr e] = map out_tag [OItem t off; ONone] /\
+  map out_tag [OItem t off; OLimit] = map out_tag [OItem t off; ONone].
+Proof. exact out_tag_blind. Qed.
+
+(* [items_forest off f] consists of items only (no error or budget outcome among them) *)
+Theorem C01_items_are_items : forall f off, Forall is_item (items_forest off f).
+Proof. exact items_forest_are_items. Qed.
+
 Definition C01_doc2 : list rtree :=
   [ RNode 129 None [ RNode 16643 None [ RLeaf 16642 (VB [7]) [7] 1%nat ]; RLeaf 16641 (VU 5) [5] 1%nat ]; RNode 129 (Some 1%nat) [] ].
 
@@ -128,6 +155,14 @@ Example C01_ex_roundtrip :
      Some (TStart 129); Some (TEnd 129); None].
 Proof. vm_compute. split; reflexivity. Qed.
 
+(* the outcome list itself: the items with their offsets, then the clean end *)
+Example C01_ex_roundtrip_strong :
+  p_run C01_cfg (snd (run_writer C01_sp (wops_forest true C01_doc2) [])) [RAll] =
+    [OItem (TStart 129) 0; OItem (TStart 16643) 9; OItem (TElem 16642 (VB [7])) 19; OItem (TEnd 16643) 9;
+     OItem (TElem 16641 (VU 5)) 23; OItem (TEnd 129) 0; OItem (TStart 129) 27; OItem (TEnd 129) 27; ONone] /\
+  p_run C01_cfg (snd (run_writer C01_sp (wops_forest true C01_doc2) [])) [RAll] = items_forest 0 C01_doc2 ++ [ONone].
+Proof. vm_compute. split; reflexivity. Qed.
+
 (* ------------------------------------------------------------------ masters given as Full *)
 (* [fconf sp d ids t]: t is written as ONE item (an element, or a Full master whose own options ask for an explicit width, the
    default, or unknown size); everything inside a Full is written with default options, hence of known size ([all_known]) *)
@@ -137,12 +172,65 @@ Theorem C01_full_roundtrip_partial : forall c d f, strict c -> c_buffered c = []
   map out_tag (p_run c (snd (run_writer (c_sp c) (fops d f) [])) [RAll]) = map Some (flat (map full_tag f)) ++ [None].
 Proof. exact full_write_read_roundtrip. Qed.
 
+(* the same on the outcome list: every call succeeds, the strict reader run to exhaustion yields exactly the items of the
+   document with their offsets and then the clean end ONone, and their tags are the Full items unrolled.  Hypotheses: [strict c],
+   [c_buffered c = []], [c_emit_eof c = true], [Forall (fconf (c_sp c) d []) f], [Forall (rconf c) f]. *)
+Theorem C01_full_roundtrip_partial_strong : forall c d f, strict c -> c_buffered c = [] -> c_emit_eof c = true ->
+  Forall (fconf (c_sp c) d []) f -> Forall (rconf c) f ->
+  Forall (fun r => fst r = WOk) (fst (run_writer (c_sp c) (fops d f) [])) /\
+  p_run c (snd (run_writer (c_sp c) (fops d f) [])) [RAll] = items_forest 0 f ++ [ONone] /\
+  map out_tag (items_forest 0 f) = map Some (flat (map full_tag f)).
+Proof. exact full_write_read_roundtrip_strong. Qed.
+
 Example C01_ex_full :
   let t := RNode 129 None [ RNode 16643 (Some 1%nat) [ RLeaf 16642 (VB [7]) [7] 1%nat ]; RLeaf 16641 (VU 5) [5] 1%nat ] in
   full_tag t = TFull 129 [TFull 16643 [TElem 16642 (VB [7])]; TElem 16641 (VU 5)] /\
   snd (run_writer C01_sp (fops true [t]) []) = enc_forest [t] /\
   map out_tag (p_run C01_cfg (snd (run_writer C01_sp (fops true [t]) [])) [RAll]) =
     [Some (TStart 129); Some (TStart 16643); Some (TElem 16642 (VB [7])); Some (TEnd 16643); Some (TElem 16641 (VU 5)); Some (TEnd 129); None].
+Proof. vm_compute. repeat split; reflexivity. Qed.
+
+(* the hypotheses of C01_full_roundtrip_partial(_strong) hold for that item (default options, d = true): [fconf] and [rconf] *)
+Definition C01_full_item : rtree :=
+  RNode 129 None [ RNode 16643 (Some 1%nat) [ RLeaf 16642 (VB [7]) [7] 1%nat ]; RLeaf 16641 (VU 5) [5] 1%nat ].
+
+Example C01_ex_full_conf : strict C01_cfg /\ Forall (fconf C01_sp true []) [C01_full_item] /\ Forall (rconf C01_cfg) [C01_full_item].
+Proof.
+  assert (I1 : idok 129) by (exists 1%nat, 1; repeat split; cbn; lia).
+  assert (I2 : idok 16643) by (exists 2%nat, 259; repeat split; cbn; lia).
+  assert (I3 : idok 16642) by (exists 2%nat, 258; repeat split; cbn; lia).
+  assert (I4 : idok 16641) by (exists 2%nat, 257; repeat split; cbn; lia).
+  assert (F1 : forall n, n < 127 -> field_ok true 1 n).
+  { intros n Hn. split; [lia|]. split; [change (2 ^ (7 * N.of_nat 1) - 1) with 127; exact Hn|]. intros _. symmetry. apply find_size_len_small, Hn. }
+  split; [repeat split|]. split.
+  - assert (L1 : wconf C01_sp true [129; 16643] (RLeaf 16642 (VB [7]) [7] 1%nat)).
+    { split; [reflexivity|]. exists DBinary. repeat split; try discriminate; try apply F1; cbn; lia. }
+    assert (L2 : wconf C01_sp true [129] (RLeaf 16641 (VU 5) [5] 1%nat)).
+    { split; [reflexivity|]. exists DUInt. repeat split; try discriminate; try apply F1; cbn; lia. }
+    constructor; [|constructor]. unfold C01_full_item. cbn [fconf].
+    split; [reflexivity|]. split; [reflexivity|]. split; [intros sl Hsl; discriminate Hsl|]. split.
+    + constructor; [|constructor; [exact L2|constructor]].
+      apply wconf_node. split; [reflexivity|]. split; [reflexivity|]. split; [|constructor; [exact L1|constructor]].
+      intros sl Hsl. injection Hsl as <-. apply F1. vm_compute. reflexivity.
+    + constructor; [|constructor; [exact I|constructor]].
+      apply all_known_node. split; [discriminate|]. constructor; [exact I|constructor].
+  - assert (R1 : rconf C01_cfg (RLeaf 16642 (VB [7]) [7] 1%nat)).
+    { split; [exact I3|]. split; [repeat constructor; lia|vm_compute; discriminate]. }
+    assert (R2 : rconf C01_cfg (RLeaf 16641 (VU 5) [5] 1%nat)).
+    { split; [exact I4|]. split; [vm_compute; reflexivity|vm_compute; discriminate]. }
+    constructor; [|constructor]. apply rconf_node. split; [exact I1|]. split; [exact I|].
+    constructor; [|constructor; [exact R2|constructor]].
+    apply rconf_node. split; [exact I2|]. split; [vm_compute; discriminate|]. constructor; [exact R1|constructor].
+Qed.
+
+(* ... so the strengthened theorem applies to it; its conclusion, computed: one successful call, the items with their offsets,
+   the clean end *)
+Example C01_ex_full_strong :
+  run_writer C01_sp (fops true [C01_full_item]) [] = ([(WOk, 20%nat)], enc_forest [C01_full_item]) /\
+  p_run C01_cfg (snd (run_writer C01_sp (fops true [C01_full_item]) [])) [RAll] =
+    [OItem (TStart 129) 0; OItem (TStart 16643) 9; OItem (TElem 16642 (VB [7])) 12; OItem (TEnd 16643) 9;
+     OItem (TElem 16641 (VU 5)) 16; OItem (TEnd 129) 0; ONone] /\
+  p_run C01_cfg (snd (run_writer C01_sp (fops true [C01_full_item]) [])) [RAll] = items_forest 0 [C01_full_item] ++ [ONone].
 Proof. vm_compute. repeat split; reflexivity. Qed.
 
 (* ------------------------------------------------------------------ reader half, known sizes, global placeholders allowed *)
@@ -349,6 +437,16 @@ Theorem C01_roundtrip_raw_partial : forall c d f, lenient_id c -> c_buffered c =
   map out_tag (p_run c (snd (run_writer (c_sp c) (wops_forest d f) [])) [RAll]) = map op_tag (wops_forest d f) ++ [None].
 Proof. exact write_read_roundtrip_raw. Qed.
 
+(* the same on the outcome list: exactly the items of the document with their offsets, then the clean end ONone.  Hypotheses:
+   [lenient_id c], [c_buffered c = []], [c_emit_eof c = true], [Forall (wxconf (c_sp c) d []) f], [Forall (rconf c) f], every master
+   of known size. *)
+Theorem C01_roundtrip_raw_partial_strong : forall c d f, lenient_id c -> c_buffered c = [] -> c_emit_eof c = true ->
+  Forall (wxconf (c_sp c) d []) f -> Forall (rconf c) f -> Forall RoundTripKnown.all_known f ->
+  Forall (fun r => fst r = WOk) (fst (run_writer (c_sp c) (wops_forest d f) [])) /\
+  p_run c (snd (run_writer (c_sp c) (wops_forest d f) [])) [RAll] = items_forest 0 f ++ [ONone] /\
+  map out_tag (items_forest 0 f) = map op_tag (wops_forest d f).
+Proof. exact write_read_roundtrip_raw_strong. Qed.
+
 (* the specification of C01k_sp read leniently; 191 (one byte) and 16700 (two bytes) are well-formed ids it does not declare *)
 Definition C01r_cfg : cfg :=
   {| c_sp := C01k_sp; c_allow_id := true; c_allow_hier := false; c_allow_over := false; c_max := Some 4000000000; c_buffered := [];
@@ -450,12 +548,32 @@ Theorem C01_roundtrip_known_partial2 : forall c d f, strict c -> c_buffered c = 
   map out_tag (p_run c (snd (run_writer (c_sp c) (wops_forest d f) [])) [RAll]) = map op_tag (wops_forest d f) ++ [None].
 Proof. exact write_read_roundtrip_known. Qed.
 
+(* the same on the outcome list: exactly the items of the document with their offsets, then the clean end ONone.  Hypotheses:
+   [strict c], [c_buffered c = []], [c_emit_eof c = true], [Forall (wconfg (c_sp c) d []) f], [Forall (rconf c) f], every master of known
+   size, [dstart c f]. *)
+Theorem C01_roundtrip_known_partial2_strong : forall c d f, strict c -> c_buffered c = [] -> c_emit_eof c = true ->
+  Forall (wconfg (c_sp c) d []) f -> Forall (rconf c) f -> Forall all_known f -> dstart c f ->
+  Forall (fun r => fst r = WOk) (fst (run_writer (c_sp c) (wops_forest d f) [])) /\
+  p_run c (snd (run_writer (c_sp c) (wops_forest d f) [])) [RAll] = items_forest 0 f ++ [ONone] /\
+  map out_tag (items_forest 0 f) = map op_tag (wops_forest d f).
+Proof. exact write_read_roundtrip_known_strong. Qed.
+
 (* the same with every top-level master given as one Full item ([fconfg] is [fconf] with matched paths) ... *)
 Theorem C01_full_roundtrip_known_partial : forall c d f, strict c -> c_buffered c = [] -> c_emit_eof c = true ->
   Forall (fconfg (c_sp c) d []) f -> Forall (rconf c) f -> Forall all_known f -> dstart c f ->
   Forall (fun r => fst r = WOk) (fst (run_writer (c_sp c) (fops d f) [])) /\
   map out_tag (p_run c (snd (run_writer (c_sp c) (fops d f) [])) [RAll]) = map Some (flat (map full_tag f)) ++ [None].
 Proof. exact full_write_read_roundtrip_known. Qed.
+
+(* on the outcome list: exactly the items of the document with their offsets, then the clean end ONone; their tags are the Full
+   items unrolled.  Hypotheses: [strict c], [c_buffered c = []], [c_emit_eof c = true], [Forall (fconfg (c_sp c) d []) f],
+   [Forall (rconf c) f], every master of known size, [dstart c f]. *)
+Theorem C01_full_roundtrip_known_partial_strong : forall c d f, strict c -> c_buffered c = [] -> c_emit_eof c = true ->
+  Forall (fconfg (c_sp c) d []) f -> Forall (rconf c) f -> Forall all_known f -> dstart c f ->
+  Forall (fun r => fst r = WOk) (fst (run_writer (c_sp c) (fops d f) [])) /\
+  p_run c (snd (run_writer (c_sp c) (fops d f) [])) [RAll] = items_forest 0 f ++ [ONone] /\
+  map out_tag (items_forest 0 f) = map Some (flat (map full_tag f)).
+Proof. exact full_write_read_roundtrip_known_strong. Qed.
 
 (* ... and with any mix of Full items and separate Start / End calls ([pres], Proofs/WriteMixed.v; [wtags] = the tags of the
    write calls): the reader yields the written tags, Full items unrolled *)
@@ -464,6 +582,22 @@ Theorem C01_mixed_roundtrip_known_partial : forall c d f ps, strict c -> c_buffe
   Forall (fun r => fst r = WOk) (fst (run_writer (c_sp c) (pops_forest d f ps) [])) /\
   map out_tag (p_run c (snd (run_writer (c_sp c) (pops_forest d f ps) [])) [RAll]) = map Some (flat (wtags (pops_forest d f ps))) ++ [None].
 Proof. exact mixed_write_read_roundtrip_known. Qed.
+
+(* on the outcome list: exactly the items of the document with their offsets, then the clean end ONone; their tags are the tags
+   of the write calls, Full items unrolled.  Hypotheses: [strict c], [c_buffered c = []], [c_emit_eof c = true],
+   [pconfg_forest (c_sp c) d [] f ps], [Forall (rconf c) f], every master of known size, [dstart c f]. *)
+Theorem C01_mixed_roundtrip_known_partial_strong : forall c d f ps, strict c -> c_buffered c = [] -> c_emit_eof c = true ->
+  pconfg_forest (c_sp c) d [] f ps -> Forall (rconf c) f -> Forall all_known f -> dstart c f ->
+  Forall (fun r => fst r = WOk) (fst (run_writer (c_sp c) (pops_forest d f ps) [])) /\
+  p_run c (snd (run_writer (c_sp c) (pops_forest d f ps) [])) [RAll] = items_forest 0 f ++ [ONone] /\
+  map out_tag (items_forest 0 f) = map Some (flat (wtags (pops_forest d f ps))).
+Proof. exact mixed_write_read_roundtrip_known_strong. Qed.
+
+(* every presentation of a document written with default options whose masters all have a known size conforms: as Full items
+   ([fconfg]) and as any mix of Full items and separate Start / End calls ([pconfg_forest], every [ps]) *)
+Theorem C01_known_default_every_presentation : forall sp ids f ps, Forall (wconfg sp true ids) f -> Forall all_known f ->
+  Forall (fconfg sp true ids) f /\ pconfg_forest sp true ids f ps.
+Proof. intros sp ids f ps Hw Hk. split; [apply wconfg_fconfg_forest; assumption|apply wconfg_pconfg_forest; assumption]. Qed.
 
 (* the document of C01k_doc with the payloads and size widths the writer chooses under default options:
    Top { Void } Root { Void Seg { Val 5 Void Rec { Leaf } } Rec { Leaf Rec { Void Leaf } Void } Void } Root { } *)
@@ -554,4 +688,37 @@ Example C01_ex_global_roundtrip :
      Some (TStart 131); Some (TElem 16642 (VB [7])); Some (TStart 131); Some (TElem 236 (VB [0])); Some (TElem 16642 (VB [7])); Some (TEnd 131);
      Some (TElem 236 (VB [0])); Some (TEnd 131);
      Some (TElem 236 (VB [0])); Some (TEnd 129); Some (TStart 129); Some (TEnd 129)].
+Proof. vm_compute. repeat split; reflexivity. Qed.
+
+(* the hypotheses of C01_full_roundtrip_known_partial(_strong) and C01_mixed_roundtrip_known_partial(_strong) hold for that
+   document (default options): every top-level master as one Full item ([fconfg]), and a mix ([pconfg_forest]) in which Top is a
+   Full item, the first Root is written with separate Start / End calls, inside it Seg is a Full item and the outer Rec is
+   written separately with its inner Rec as a Full item, and the second Root is written separately *)
+Definition C01g_pres : list pres := [ PFull; PSep [ PFull; PFull; PSep [ PFull; PFull; PFull ]; PFull ]; PSep [] ].
+
+Example C01_ex_global_presentations :
+  Forall (fconfg C01k_sp true []) C01g_doc /\ pconfg_forest C01k_sp true [] C01g_doc C01g_pres /\
+  Forall (rconf C01k_cfg) C01g_doc /\ Forall all_known C01g_doc /\ dstart C01k_cfg C01g_doc.
+Proof.
+  destruct C01_ex_global_wconf as [Hw [Hr [Hk Hd]]].
+  destruct (C01_known_default_every_presentation C01k_sp [] C01g_doc C01g_pres Hw Hk) as [H1 H2].
+  split; [exact H1|]. split; [exact H2|]. split; [exact Hr|]. split; assumption.
+Qed.
+
+(* the calls of the mix (Full items, Starts and Ends), all successful; the bytes are the structural encoding; the strict reader
+   yields exactly the items of the document, then the clean end; written as Full items only, the same *)
+Example C01_ex_mixed_roundtrip :
+  wtags (pops_forest true C01g_doc C01g_pres) =
+    [TFull 132 [TElem 236 (VB [0])];
+     TStart 129; TElem 236 (VB [0]);
+     TFull 130 [TElem 16641 (VU 5); TElem 236 (VB [0]); TFull 131 [TElem 16642 (VB [7])]];
+     TStart 131; TElem 16642 (VB [7]); TFull 131 [TElem 236 (VB [0]); TElem 16642 (VB [7])]; TElem 236 (VB [0]); TEnd 131;
+     TElem 236 (VB [0]); TEnd 129;
+     TStart 129; TEnd 129] /\
+  map fst (fst (run_writer C01k_sp (pops_forest true C01g_doc C01g_pres) [])) = repeat WOk 13 /\
+  snd (run_writer C01k_sp (pops_forest true C01g_doc C01g_pres) []) = enc_forest C01g_doc /\
+  p_run C01k_cfg (snd (run_writer C01k_sp (pops_forest true C01g_doc C01g_pres) [])) [RAll] = items_forest 0 C01g_doc ++ [ONone] /\
+  map fst (fst (run_writer C01k_sp (fops true C01g_doc) [])) = repeat WOk 3 /\
+  p_run C01k_cfg (snd (run_writer C01k_sp (fops true C01g_doc) [])) [RAll] = items_forest 0 C01g_doc ++ [ONone] /\
+  last (items_forest 0 C01g_doc ++ [ONone]) OPanic = ONone.
 Proof. vm_compute. repeat split; reflexivity. Qed.
